@@ -99,9 +99,12 @@ package help
 //@   loop "for _, command := range names"
 //@     invariant cmds.sorted {C20}: sorted(names)
 //@     step cmds.entry {C18}: contains(out, names[$idx]) && hasprefix(out, old_iter(out))
+// The ARGUMENTS section is shown unless there is nothing to describe (no argument, or a single one without name or description).
+//@ spec func ArgsShown(args []SynopsisArg) bool = len(args) >= 2 || (len(args) == 1 && args[0].Arg != "" && args[0].Description != "")
 //@ func OptionList
 //@   props C18 C19
 //@   requires list.opts: OptsListOK(options)
+//@   ensures list.args {C18}: ArgsShown(args) ==> contains(result, text.HelpArgumentsHeader ++ ":\n")
 //@   allocates []*option.Option, SynopsisArg
 //@   modifies
 //@   loop "for _, opt := range options"
@@ -113,13 +116,17 @@ package help
 //@   loop "for _, arg := range args"@1
 //@     invariant args.width: 0 <= synopsisLength && synopsisLength <= 72057594037927936
 //@   loop "for _, arg := range args"@2
+//@     invariant args2.header {C18}: contains(out, text.HelpArgumentsHeader ++ ":\n")
+//@     step args.entry {C18}: contains(out, $ranged[$idx].Arg) && hasprefix(out, old_iter(out))
 //@     invariant args2.width: 0 <= synopsisLength && synopsisLength <= 72057594037927936
 //@   loop "for _, option := range requiredOptions"
+//@     invariant req.args {C18}: ArgsShown(args) ==> contains(out, text.HelpArgumentsHeader ++ ":\n")
 //@     invariant req.sorted {C20}: SortedByName(requiredOptions) && SortedByName(normalOptions)
 //@     invariant req.width: 0 <= synopsisLength && synopsisLength <= 72057594037927936
 //@     invariant req.kinds: OptsListOK(requiredOptions) && OptsListOK(normalOptions) && (forall j int :: 0 <= j && j < len(normalOptions) ==> !normalOptions[j].IsRequired)
 //@     step req.entry {C18}: contains(out, requiredOptions[$idx].HelpSynopsis) && hasprefix(out, old_iter(out))
 //@   loop "for _, option := range normalOptions"
+//@     invariant norm.args {C18}: ArgsShown(args) ==> contains(out, text.HelpArgumentsHeader ++ ":\n")
 //@     invariant norm.sorted {C20}: SortedByName(normalOptions)
 //@     invariant norm.width: 0 <= synopsisLength && synopsisLength <= 72057594037927936
 //@     invariant norm.kinds: OptsListOK(normalOptions) && (forall j int :: 0 <= j && j < len(normalOptions) ==> !normalOptions[j].IsRequired)
